@@ -1,6 +1,7 @@
 //! `zvrt <scenario> [--tier ..] [--seed N] [--index I]`: scenarios on the runtime crates
 //! (zlink-tokio, zlink-smol): `notified` (C20), `unix` (C19).
 mod notified;
+mod prod;
 mod unix;
 
 pub struct Opts {
@@ -82,6 +83,7 @@ fn main() {
     match scenario.as_str() {
         "notified" => notified::main(&o),
         "unix" => unix::main(&o),
+        "prod" => prod::main(&o),
         other => {
             eprintln!("unknown scenario {other}");
             std::process::exit(2);
